@@ -20,17 +20,18 @@ type verifDraw struct {
 }
 
 type verifDRBG struct {
-	Seed   [32]byte
-	Reads  int // number of reads answered so far (1-byte coin reads excluded)
-	FailAt int // index of the read that fails; <0: never
-	Short  bool
-	Script [][]byte    // answers for the first reads of matching length (C15a)
-	Keep   bool        // keep the log of draws
-	Log    []verifDraw `verif:"nohash"`
+	Seed    [32]byte
+	Reads   int // number of reads answered so far (1-byte coin reads excluded)
+	FailAt  int // index of the read that fails; <0: never
+	FailAt2 int // a second failing read (error); <0: never
+	Short   bool
+	Script  [][]byte    // answers for the first reads of matching length (C15a)
+	Keep    bool        // keep the log of draws
+	Log     []verifDraw `verif:"nohash"`
 }
 
 func verifNewDRBG(seed int64, name string) *verifDRBG {
-	d := &verifDRBG{FailAt: -1}
+	d := &verifDRBG{FailAt: -1, FailAt2: -1}
 	var b [8]byte
 	binary.BigEndian.PutUint64(b[:], uint64(seed))
 	d.Seed = sha256.Sum256(append(b[:], name...))
@@ -47,6 +48,9 @@ func (d *verifDRBG) Read(p []byte) (int, error) {
 	}
 	ix := d.Reads
 	d.Reads++
+	if ix == d.FailAt2 {
+		return 0, errVerifRand
+	}
 	if ix == d.FailAt {
 		if d.Short && len(p) > 1 {
 			d.fill(ix, p[:len(p)/2])
